@@ -49,6 +49,9 @@ model/Weibull.vos model/Weibull.vok model/Weibull.required_vos: model/Weibull.v 
 model/Strain.vo model/Strain.glob model/Strain.v.beautified model/Strain.required_vo: model/Strain.v model/Interp.vo
 model/Strain.vio: model/Strain.v model/Interp.vio
 model/Strain.vos model/Strain.vok model/Strain.required_vos: model/Strain.v model/Interp.vos
+model/TubeMech.vo model/TubeMech.glob model/TubeMech.v.beautified model/TubeMech.required_vo: model/TubeMech.v 
+model/TubeMech.vio: model/TubeMech.v 
+model/TubeMech.vos model/TubeMech.vok model/TubeMech.required_vos: model/TubeMech.v 
 proofs/ThermalConservation.vo proofs/ThermalConservation.glob proofs/ThermalConservation.v.beautified proofs/ThermalConservation.required_vo: proofs/ThermalConservation.v theory/Sums.vo model/Thermal.vo
 proofs/ThermalConservation.vio: proofs/ThermalConservation.v theory/Sums.vio model/Thermal.vio
 proofs/ThermalConservation.vos proofs/ThermalConservation.vok proofs/ThermalConservation.required_vos: proofs/ThermalConservation.v theory/Sums.vos model/Thermal.vos
@@ -109,12 +112,21 @@ proofs/StrainProofs.vos proofs/StrainProofs.vok proofs/StrainProofs.required_vos
 proofs/StrainGen.vo proofs/StrainGen.glob proofs/StrainGen.v.beautified proofs/StrainGen.required_vo: proofs/StrainGen.v model/Strain.vo proofs/StrainProofs.vo gen/StrainBook.vo
 proofs/StrainGen.vio: proofs/StrainGen.v model/Strain.vio proofs/StrainProofs.vio gen/StrainBook.vio
 proofs/StrainGen.vos proofs/StrainGen.vok proofs/StrainGen.required_vos: proofs/StrainGen.v model/Strain.vos proofs/StrainProofs.vos gen/StrainBook.vos
+proofs/TubeMechProofs.vo proofs/TubeMechProofs.glob proofs/TubeMechProofs.v.beautified proofs/TubeMechProofs.required_vo: proofs/TubeMechProofs.v model/TubeMech.vo gen/TubeMesh.vo
+proofs/TubeMechProofs.vio: proofs/TubeMechProofs.v model/TubeMech.vio gen/TubeMesh.vio
+proofs/TubeMechProofs.vos proofs/TubeMechProofs.vok proofs/TubeMechProofs.required_vos: proofs/TubeMechProofs.v model/TubeMech.vos gen/TubeMesh.vos
+proofs/Lame.vo proofs/Lame.glob proofs/Lame.v.beautified proofs/Lame.required_vo: proofs/Lame.v 
+proofs/Lame.vio: proofs/Lame.v 
+proofs/Lame.vos proofs/Lame.vok proofs/Lame.required_vos: proofs/Lame.v 
 props/C01.vo props/C01.glob props/C01.v.beautified props/C01.required_vo: props/C01.v model/Life.vo proofs/LifeProofs.vo proofs/LifeMin.vo proofs/LifeInvariance.vo
 props/C01.vio: props/C01.v model/Life.vio proofs/LifeProofs.vio proofs/LifeMin.vio proofs/LifeInvariance.vio
 props/C01.vos props/C01.vok props/C01.required_vos: props/C01.v model/Life.vos proofs/LifeProofs.vos proofs/LifeMin.vos proofs/LifeInvariance.vos
 props/C02.vo props/C02.glob props/C02.v.beautified props/C02.required_vo: props/C02.v theory/Sums.vo model/Thermal.vo proofs/ThermalConservation.vo
 props/C02.vio: props/C02.v theory/Sums.vio model/Thermal.vio proofs/ThermalConservation.vio
 props/C02.vos props/C02.vok props/C02.required_vos: props/C02.v theory/Sums.vos model/Thermal.vos proofs/ThermalConservation.vos
+props/C03.vo props/C03.glob props/C03.v.beautified props/C03.required_vo: props/C03.v model/TubeMech.vo gen/TubeMesh.vo proofs/TubeMechProofs.vo proofs/Lame.vo
+props/C03.vio: props/C03.v model/TubeMech.vio gen/TubeMesh.vio proofs/TubeMechProofs.vio proofs/Lame.vio
+props/C03.vos props/C03.vok props/C03.required_vos: props/C03.v model/TubeMech.vos gen/TubeMesh.vos proofs/TubeMechProofs.vos proofs/Lame.vos
 props/C04.vo props/C04.glob props/C04.v.beautified props/C04.required_vo: props/C04.v model/Spring.vo proofs/SpringProofs.vo
 props/C04.vio: props/C04.v model/Spring.vio proofs/SpringProofs.vio
 props/C04.vos props/C04.vok props/C04.required_vos: props/C04.v model/Spring.vos proofs/SpringProofs.vos
@@ -166,6 +178,9 @@ gen/WeibullTables.vos gen/WeibullTables.vok gen/WeibullTables.required_vos: gen/
 gen/StrainBook.vo gen/StrainBook.glob gen/StrainBook.v.beautified gen/StrainBook.required_vo: gen/StrainBook.v 
 gen/StrainBook.vio: gen/StrainBook.v 
 gen/StrainBook.vos gen/StrainBook.vok gen/StrainBook.required_vos: gen/StrainBook.v 
+gen/TubeMesh.vo gen/TubeMesh.glob gen/TubeMesh.v.beautified gen/TubeMesh.required_vo: gen/TubeMesh.v 
+gen/TubeMesh.vio: gen/TubeMesh.v 
+gen/TubeMesh.vos gen/TubeMesh.vok gen/TubeMesh.required_vos: gen/TubeMesh.v 
 props/C17.vo props/C17.glob props/C17.v.beautified props/C17.required_vo: props/C17.v model/Loops.vo proofs/LoopsProofs.vo
 props/C17.vio: props/C17.v model/Loops.vio proofs/LoopsProofs.vio
 props/C17.vos props/C17.vok props/C17.required_vos: props/C17.v model/Loops.vos proofs/LoopsProofs.vos
